@@ -1722,3 +1722,229 @@ example :
       [{ ev := none, rpc := .err, state := none, after := none, cmd := [], att := some [[]], verdictLost := true }] =
       some "-" := by
   decide
+
+/-! ## WHEN an acknowledgement counts: the response time-out a transition gives its targets
+
+  `Servent.RunCommand` waits for a target's answer with the time-out of the command it was handed — the per-target copy
+  `MakeSingleTarget` makes — not with the time-out of the command the transition built. Model/Deadline.lean: `DlCfg`,
+  `transitionCommand`, `makeSingleTarget`, `runCommandT`, `commitT`, `TOutcome.settle`. -/
+
+/-- tie (go/ast, Gen/C02Facts.lean): `DlCfg.code` is the default of mesoscommand.go, the value configureTasks puts on the
+    CONFIGURE command, and MakeSingleTarget's literal handing the receiver's `ResponseTimeout` on; the constructors stamp
+    the default; nothing else under core/ writes the field (START / STOP / RESET keep the default); commit sends and
+    RunCommand waits for the COPY with the copy's time-out. -/
+theorem C02_deadline_is_code :
+    DlCfg.code = { dflt := Gen.C02.defaultTimeoutMs, configure := Gen.C02.configureTimeoutMs,
+                   copyInherits := Gen.C02.singleTargetCopiesTimeout } ∧
+    Gen.C02.constructorStampsDefault = true ∧ Gen.C02.onlyConfigureOverridesTimeout = true ∧
+    Gen.C02.serventWaitsCopyTimeout = true := by decide
+
+/-- tie (differential): the LINKED constructors stamp the model's default, and the LINKED MakeSingleTarget — through the
+    Transition and TriggerHook wrappers and on the base — gives every receiver of commands with default and non-default
+    time-outs a copy with the time-out `makeSingleTarget DlCfg.code` computes. -/
+theorem C02_single_target_deadline_is_code :
+    (∀ r ∈ Gen.C02.constructedTimeoutsMs, r.2 = (newMesosCommand DlCfg.code).timeout) ∧
+    (∀ r ∈ Gen.C02.singleTargetTimeoutsMs, r.2.2 = (makeSingleTarget DlCfg.code ⟨r.2.1⟩).timeout) ∧
+    Gen.C02.singleTargetTimeoutsMs.length = 36 := by decide
+
+/-- The code as it is gives every target of every transition exactly the time the transition allows. -/
+theorem C02_target_deadline_code (e : Ev) : targetDeadline DlCfg.code e = allowed e := by
+  cases e <;> rfl
+
+/-- Whenever the copy inherits, a target is waited for with the time-out of the command the transition built — whatever
+    the numbers. -/
+theorem C02_target_deadline_inherits (dc : DlCfg) (h : dc.copyInherits = true) (e : Ev) :
+    targetDeadline dc e = (transitionCommand dc e).timeout := by
+  simp [targetDeadline, makeSingleTarget, h]
+
+/-- …and otherwise with the constructor's default, whatever the transition put on its command. -/
+theorem C02_target_deadline_default_copy (dc : DlCfg) (h : dc.copyInherits = false) (e : Ev) :
+    targetDeadline dc e = dc.dflt := by
+  simp [targetDeadline, makeSingleTarget, h, newMesosCommand]
+
+/-- `RunCommand` with a time-out is `runCommand` on the settled outcome: an answer that is not there when the timer
+    fires is no answer. All time-outs, all delays, all outcomes. -/
+theorem C02_run_command_settles (tmo : Nat) (o : TOutcome) : runCommandT tmo o = runCommand (o.settle tmo) := by
+  obtain ⟨b, d⟩ := o
+  by_cases h : d < tmo <;> cases b <;> simp [runCommandT, runCommand, TOutcome.settle, Outcome.replies, h]
+
+/-- `commit` with time is `commit` of Model/Transition on the outcomes settled by the COPY's time-out. -/
+theorem C02_commit_timed (dc : DlCfg) (c : Command) (ts : List (Bool × TOutcome)) :
+    commitT dc c ts = commit (ts.map (fun t => (t.1, t.2.settle (makeSingleTarget dc c).timeout))) := by
+  simp [commitT, commit, C02_run_command_settles, Function.comp_def]
+
+/-- A timed outcome settles to "acknowledged" iff the task acknowledged before the time-out. -/
+theorem C02_ack_in_time_iff (dl : Nat) (o : TOutcome) : o.settle dl = .ok ↔ o.ackedWithin dl = true := by
+  obtain ⟨b, d⟩ := o
+  by_cases h : d < dl <;> cases b <;> simp [TOutcome.settle, TOutcome.ackedWithin, Outcome.replies, h]
+
+/-- An answer that comes at or after the time-out never counts, whatever it says. -/
+theorem C02_late_never_acks (dl : Nat) (o : TOutcome) (h : dl ≤ o.delay) : o.settle dl ≠ .ok := by
+  rw [Ne, C02_ack_in_time_iff]; simp [TOutcome.ackedWithin]; omega
+
+theorem targetsT_settle (dl : Nat) (ps : List (Task × TOutcome)) :
+    (targetsT ps).map (fun t => (t.1, t.2.settle dl)) = targets (ps.map (fun p => (p.1, p.2.settle dl))) := by
+  simp [targetsT, targets, List.filter_map, Function.comp_def]
+
+/-- Full strength with time: for EVERY task list and EVERY assignment of outcomes AND delays, the body of CONFIGURE /
+    START_ACTIVITY / STOP_ACTIVITY / RESET succeeds iff every active critical task acknowledged within the time-out of
+    the command the transition built. -/
+def C02_iff_timed_full (dc : DlCfg) (cfg : Cfg) : Prop :=
+  ∀ (e : Ev), commandEv e → ∀ (ps : List (Task × TOutcome)),
+    (bodyForT dc cfg e (targetsT ps) = .ok ↔
+      ∀ p ∈ ps, p.1.active = true → p.1.critical = true → p.2.ackedWithin (transitionCommand dc e).timeout = true)
+
+theorem iff_timed_of_deadline (dc : DlCfg) (e : Ev) (he : commandEv e) (ps : List (Task × TOutcome)) :
+    bodyForT dc Cfg.code e (targetsT ps) = .ok ↔
+      ∀ p ∈ ps, p.1.active = true → p.1.critical = true → p.2.ackedWithin (targetDeadline dc e) = true := by
+  rw [bodyForT, targetsT_settle, C02_iff_code e he]
+  simp only [allCriticalAcked, targets, List.all_eq_true, List.mem_map, List.mem_filter]
+  constructor
+  · intro h p hp ha hc
+    have := h (p.1.critical, p.2.settle (targetDeadline dc e)) ⟨(p.1, p.2.settle (targetDeadline dc e)), ⟨⟨p, hp, rfl⟩, ha⟩, rfl⟩
+    simp only [hc, Bool.not_true, Bool.false_or, decide_eq_true_eq] at this
+    exact (C02_ack_in_time_iff _ _).1 this
+  · rintro h t ⟨q, ⟨⟨p, hp, rfl⟩, ha⟩, rfl⟩
+    cases hc : p.1.critical
+    · simp
+    · simp only [Bool.not_true, Bool.false_or, decide_eq_true_eq]
+      exact (C02_ack_in_time_iff _ _).2 (h p hp ha hc)
+
+/-- It holds whenever the per-target copy inherits the command's time-out — for all default / CONFIGURE values. -/
+theorem C02_iff_timed_inherits (dc : DlCfg) (h : dc.copyInherits = true) : C02_iff_timed_full dc Cfg.code := by
+  intro e he ps
+  rw [iff_timed_of_deadline dc e he ps, C02_target_deadline_inherits dc h]
+
+/-- The code as it is: in full, and the time-out is the time the transition allows (`Spec.allowed`). -/
+theorem C02_iff_code_timed : C02_iff_timed_full DlCfg.code Cfg.code := C02_iff_timed_inherits _ rfl
+
+theorem C02_iff_code_allowed (e : Ev) (he : commandEv e) (ps : List (Task × TOutcome)) :
+    bodyForT DlCfg.code Cfg.code e (targetsT ps) = .ok ↔
+      ∀ p ∈ ps, p.1.active = true → p.1.critical = true → p.2.ackedWithin (allowed e) = true := by
+  rw [iff_timed_of_deadline DlCfg.code e he ps, C02_target_deadline_code]
+
+/-- It FAILS whenever the copy carries the default and CONFIGURE is meant to get more: a critical task that
+    acknowledges CONFIGURE after the default but within the command's time-out is timed out. -/
+theorem C02_copy_must_inherit (dc : DlCfg) (h : dc.copyInherits = false) (hlt : dc.dflt < dc.configure) :
+    ¬ C02_iff_timed_full dc Cfg.code := by
+  intro hf
+  have := (hf .CONFIGURE (Or.inl rfl) [({ critical := true, active := true }, ⟨.ok, dc.dflt⟩)]).2
+    (by intro p hp _ _
+        simp only [List.mem_singleton] at hp
+        subst hp
+        simp [TOutcome.ackedWithin, transitionCommand, hlt])
+  rw [iff_timed_of_deadline dc _ (Or.inl rfl), C02_target_deadline_default_copy dc h] at this
+  have h1 := this _ (List.mem_singleton.2 rfl) rfl rfl
+  simp [TOutcome.ackedWithin] at h1
+
+/-- …in particular for the variant with the code's numbers. -/
+theorem C02_default_copy_refuted : ¬ C02_iff_timed_full DlCfg.defaultCopy Cfg.code :=
+  C02_copy_must_inherit _ rfl (by decide)
+
+/-- In full, every configuration: a critical active task that does not acknowledge within the time-out its copy of the
+    command carries makes the body fail. -/
+theorem C02_unacked_in_time_never_reported (dc : DlCfg) (cfg : Cfg) (e : Ev) (he : commandEv e)
+    (ps : List (Task × TOutcome)) (p : Task × TOutcome) (hp : p ∈ ps) (ha : p.1.active = true) (hc : p.1.critical = true)
+    (hl : p.2.ackedWithin (targetDeadline dc e) = false) : bodyForT dc cfg e (targetsT ps) ≠ .ok := by
+  rw [bodyForT, targetsT_settle]
+  apply C02_unacked_never_reported cfg e he
+  simp only [allCriticalAcked, targets, Bool.eq_false_iff, ne_eq, List.all_eq_true, List.mem_map, List.mem_filter]
+  intro h
+  have := h (p.1.critical, p.2.settle (targetDeadline dc e)) ⟨(p.1, p.2.settle (targetDeadline dc e)), ⟨⟨p, hp, rfl⟩, ha⟩, rfl⟩
+  simp only [hc, Bool.not_true, Bool.false_or, decide_eq_true_eq] at this
+  rw [(C02_ack_in_time_iff _ _).1 this] at hl
+  cases hl
+
+/-- Why the time-out GIVEN has to be the time ALLOWED: for any other value there is a delay at which a lone critical
+    task's answer is judged differently. -/
+theorem C02_wrong_deadline_refutes (e : Ev) (dl : Nat) (h : dl ≠ allowed e) :
+    ∃ d, (⟨.ok, d⟩ : TOutcome).ackedWithin dl ≠ (⟨.ok, d⟩ : TOutcome).ackedWithin (allowed e) := by
+  refine ⟨min dl (allowed e), ?_⟩
+  simp only [TOutcome.ackedWithin, decide_true, Bool.true_and, ne_eq, decide_eq_decide]
+  omega
+
+/-! ### conservative extension: without delays nothing changes -/
+
+theorem settle_timed (dl : Nat) (h : 0 < dl) (o : Outcome) : (Outcome.timed o).settle dl = o := by
+  cases o <;> simp [Outcome.timed, TOutcome.settle, Outcome.replies, h]
+
+theorem settleOuts_timed (dl : Nat) (h : 0 < dl) (os : List Outcome) : settleOuts dl (os.map Outcome.timed) = os := by
+  induction os with
+  | nil => rfl
+  | cons o os ih =>
+    simp only [settleOuts, List.map_cons, List.cons.injEq] at ih ⊢
+    exact ⟨settle_timed dl h o, ih⟩
+
+/-- A scenario without delays, settled by ANY positive time-outs, is the scenario. -/
+theorem C02_no_delay_is_plain (dl : Ev → Nat) (h : ∀ e, 0 < dl e) (sc : Scenario) : sc.timed.settle dl = sc := by
+  obtain ⟨wf, conf, steps⟩ := sc
+  simp only [Scenario.timed, TScenario.settle, settleOuts_timed _ (h _), Scenario.mk.injEq, true_and]
+  induction steps with
+  | nil => rfl
+  | cons s ss ih =>
+    simp only [List.map_cons, List.cons.injEq]
+    refine ⟨?_, ih⟩
+    cases s <;> simp [SStep.timed, TStep.settle, settleOuts_timed _ (h _)]
+
+/-- …so its timed run is the run of Model/Transition, with the time-outs given added to the observation. -/
+theorem C02_no_delay_run (cfg : Cfg) (sc : Scenario) :
+    runT DlCfg.code cfg sc.timed = withDeadlines DlCfg.code (run cfg sc) := by
+  rw [runT, C02_no_delay_is_plain _ (fun e => by rw [C02_target_deadline_code]; cases e <;> decide)]
+
+/-! ### Spec.C02 on timed scenarios -/
+
+theorem obs_withDeadlines (dc : DlCfg) (os : List Obs) : (withDeadlines dc os).map (·.obs) = os := by
+  simp [withDeadlines, Function.comp_def]
+
+theorem deadlinesOk_code (os : List Obs) : deadlinesOk (withDeadlines DlCfg.code os) = true := by
+  simp [deadlinesOk, withDeadlines, C02_target_deadline_code]
+
+theorem deadline_code_allowed : targetDeadline DlCfg.code = allowed := funext C02_target_deadline_code
+
+theorem judgeT_code (sc : TScenario) :
+    judgeT sc (runT DlCfg.code Cfg.code sc) = judge (sc.settle allowed) (run Cfg.code (sc.settle allowed)) := by
+  rw [judgeT, judgeDl, runT, deadlinesOk_code, obs_withDeadlines, deadline_code_allowed]; rfl
+
+theorem judgeOT_code (sc : OTScenario) :
+    judgeOT sc (runOT DlCfg.code AcqCfg.code Cfg.code sc) =
+      judgeO (sc.settle allowed) (runO AcqCfg.code Cfg.code (sc.settle allowed)) := by
+  rw [judgeOT, judgeDl, runOT, deadlinesOk_code, obs_withDeadlines, deadline_code_allowed]; rfl
+
+/-- The code as it is satisfies Spec.C02 on EVERY scenario with timed outcomes outside the three open DEPLOY corners:
+    every request sequence, every outcome AND delay assignment (answers just inside and just outside the time allowed
+    included), and every commanded target is given exactly the time its transition allows. -/
+theorem C02_spec_code_timed (sc : TScenario) (h0 : emptyWorkflow sc.wf = false)
+    (h1 : noncritLaunchFail sc.wf.tasks = false) (h2 : earlyRunning sc.wf.tasks = false)
+    (h3 : sc.wf.notifyLost = false) :
+    judgeT sc (runT DlCfg.code Cfg.code sc) = none := by
+  rw [judgeT_code]; exact C02_spec_code _ h0 h1 h2 h3
+
+theorem C02_only_deploy_corners_code_timed (sc : TScenario) (h : String)
+    (hj : judgeT sc (runT DlCfg.code Cfg.code sc) = some h) :
+    h = "deploy_empty_workflow" ∨ h = "deploy_misses_active" ∨ h = "deploy_noncritical_blocks" := by
+  rw [judgeT_code] at hj; exact C02_only_deploy_corners_code _ h hj
+
+/-- The verdict the harness computes on what the model does with a timed scenario is never the anonymous "-". -/
+theorem C02_corners_exhaustive_timed (sc : TScenario) : judgeT sc (runT DlCfg.code Cfg.code sc) ≠ some "-" := by
+  rw [judgeT_code]; exact C02_corners_exhaustive _
+
+theorem C02_attempts_corners_exhaustive_timed (sc : OTScenario) :
+    judgeOT sc (runOT DlCfg.code AcqCfg.code Cfg.code sc) ≠ some "-" := by
+  rw [judgeOT_code]; exact C02_attempts_corners_exhaustive _
+
+/-- Spec.C02 rejects the variant whose per-target copy carries the default — on a scenario in which EVERY task answers at
+    once (only the time-outs given differ), and on one whose critical task acknowledges CONFIGURE after 100 s (the
+    variant reports a failure). -/
+theorem C02_default_copy_rejected :
+    judgeT { wf := { calls := 0, tasks := [(true, .ok), (false, .ok)] }, configure := [⟨.ok, 0⟩, ⟨.ok, 0⟩], steps := [] }
+      (runT DlCfg.defaultCopy Cfg.code
+        { wf := { calls := 0, tasks := [(true, .ok), (false, .ok)] }, configure := [⟨.ok, 0⟩, ⟨.ok, 0⟩], steps := [] }) = some "-" ∧
+    (let sc : TScenario := { wf := { calls := 0, tasks := [(true, .ok), (false, .ok)] }, configure := [⟨.ok, 100000⟩, ⟨.ok, 0⟩], steps := [] }
+     (runT DlCfg.defaultCopy Cfg.code sc).map (·.obs.rpc) = [.err] ∧ (runT DlCfg.code Cfg.code sc).map (·.obs.rpc) = [.ok] ∧
+     judge (sc.settle allowed) ((runT DlCfg.defaultCopy Cfg.code sc).map (·.obs)) = some "-") := by decide
+
+example : (runT DlCfg.code Cfg.code
+    { wf := { calls := 0, tasks := [(true, .ok), (false, .ok)] }, configure := [⟨.ok, 100000⟩, ⟨.ok, 0⟩],
+      steps := [.ctl .START_ACTIVITY [⟨.ok, 80000⟩, ⟨.errorReplyStaySrc, 100000⟩] false [],
+                .ctl .STOP_ACTIVITY [⟨.ok, 100000⟩, ⟨.ok, 0⟩] false []] }).map (fun o => (o.obs.rpc, o.obs.state, o.dl)) =
+    [(.ok, some .CONFIGURED, [120000, 120000]), (.ok, some .RUNNING, [90000, 90000]), (.err, none, [90000, 90000])] := by decide
